@@ -4,8 +4,12 @@ use syn::{Error, FnArg, Pat};
 
 use super::{
     types::{ArgInfo, MethodAttrs},
-    utils::{convert_to_single_lifetime, snake_case_to_pascal_case, type_contains_lifetime},
+    utils::{
+        convert_to_single_lifetime, param_serde_attrs, peek_param_rename_attr,
+        snake_case_to_pascal_case, type_contains_lifetime,
+    },
 };
+use crate::utils::is_option_type;
 
 pub(super) fn generate_chain_extension_method(
     method: &mut syn::TraitItemFn,
@@ -58,6 +62,20 @@ pub(super) fn generate_chain_extension_method(
         })
         .collect();
 
+    // The fields of the parameters struct additionally carry the serde attributes.
+    let struct_fields: Vec<_> = arg_infos
+        .iter()
+        .map(|info| {
+            let name = info.name;
+            let ty = &info.ty_for_params;
+            let serde_attrs = param_serde_attrs(&info.serialized_name, info.is_optional);
+            quote! {
+                #serde_attrs
+                #name: #ty
+            }
+        })
+        .collect();
+
     if arg_infos.is_empty() {
         generate_no_params_method(&method_ident, &method_path, crate_path)
     } else {
@@ -67,6 +85,7 @@ pub(super) fn generate_chain_extension_method(
             generics,
             combined_where_clause,
             param_fields,
+            struct_fields,
             arg_names,
             &method_generic_params,
             &method_where_clause,
@@ -107,12 +126,16 @@ fn parse_method_arguments<'a>(
             // Check if this argument has lifetimes
             let has_lifetime = type_contains_lifetime(&ty_for_params);
 
+            // Same wire name and same treatment of `None` as in the method itself.
+            let serialized_name = peek_param_rename_attr(&pat_type.attrs);
+            let is_optional = is_option_type(ty);
+
             Some(Ok(ArgInfo {
                 name,
                 ty_for_params,
                 has_lifetime,
-                is_optional: false,
-                serialized_name: None,
+                is_optional,
+                serialized_name,
             }))
         })
         .collect()
@@ -195,6 +218,7 @@ fn generate_with_params_method(
     generics: TokenStream,
     combined_where_clause: TokenStream,
     param_fields: Vec<TokenStream>,
+    struct_fields: Vec<TokenStream>,
     arg_names: Vec<&syn::Ident>,
     method_generic_params: &syn::punctuated::Punctuated<syn::GenericParam, syn::Token![,]>,
     method_where_clause: &Option<syn::WhereClause>,
@@ -253,7 +277,7 @@ fn generate_with_params_method(
                 struct #params_struct_name #generics
                 #struct_where
                 {
-                    #(#param_fields,)*
+                    #(#struct_fields,)*
                 }
 
                 #[derive(::serde::Serialize, ::core::fmt::Debug)]
